@@ -412,7 +412,7 @@ class Documentable:
         assert parentMod is not None
         return parentMod
 
-    def report(self, descr: str, section: str = 'parsing', lineno_offset: int = 0, thresh:int=-1) -> None:
+    def report(self, descr: str, section: str = 'parsing', lineno_offset: int = 0, thresh:int=-1, once:bool=False) -> None:
         """
         Log an error or warning about this documentable object.
 
@@ -422,6 +422,7 @@ class Documentable:
         @param thresh: Thresh to pass to L{System.msg}, it will use C{-1} by default, 
           meaning it will count as a violation and will fail the build if option C{-W} is passed.
           But this behaviour is not applicable if C{thresh} is greater or equal to zero.
+        @param once: Whether to log this message only once, see L{System.msg}.
         """
 
         linenumber: object
@@ -439,7 +440,8 @@ class Documentable:
         self.system.msg(
             section,
             f'{self.description}:{linenumber}: {descr}',
-            thresh=thresh)
+            thresh=thresh, 
+            once=once)
 
     @property
     def docstring_linker(self) -> 'linker.DocstringLinker':
